@@ -56,6 +56,11 @@ func (p *ebcdicVarPrefixer) DecodeLength(maxLen int, data []byte) (int, int, err
 		return 0, 0, err
 	}
 
+	// length should be positive
+	if dataLen < 0 {
+		return 0, 0, fmt.Errorf(invalidLength, dataLen)
+	}
+
 	if dataLen > maxLen {
 		return 0, 0, fmt.Errorf(dataLengthIsLargerThanMax, dataLen, maxLen)
 	}
